@@ -11,9 +11,11 @@ C17-4 C18-4 C19-3 C20-3 C20-4
 C01-5 C02-6 C04-5 C05-5 C07-5 C07-6 C10-5 C10-6 C12-5 C12-6 C13-5 C15-5 C16-5 C16-6 C18-5 C18-6 C19-5 C19-6 C20-5 C20-6
 C02-7 C02-8 C03-8 C06-7 C06-8 C08-7 C08-8 C09-7 C10-7 C10-8 C11-7 C11-8 C12-7 C13-7 C13-8 C15-7 C17-7 C17-8 C18-7 C19-7 C20-7
 C01-10 C05-9 C05-10 C06-9 C07-9 C10-10 C11-10 C13-9 C14-10 C15-10 C16-10 C17-9 C19-9 C20-10 C02-9 C08-10 C12-10 C13-10 C20-9
-C12-11 C17-11 C19-11'''.split())
+C12-11 C17-11 C19-11
+C04-12 C05-12 C08-12 C15-12 C16-12 C18-12'''.split())
 INCONCLUSIVE_FIRST = {'C03-3', 'C04-3', 'C14-4', 'C16-3', 'C18-4', 'C05-5', 'C11-8', 'C02-9', 'C08-10', 'C12-10', 'C13-10', 'C20-9'}
-OTHER_FIRST = {'C02-10': '**missed** by C02 (no misbehaving-responder harness there); caught by C11, whose subject it is',
+OTHER_FIRST = {'C04-12': '**missed** - and still missed: see the note on C04-12 in 0.6',
+               'C02-10': '**missed** by C02 (no misbehaving-responder harness there); caught by C11, whose subject it is',
                'C10-9': 'caught (on the tree before the F25 repair; does not apply afterwards)',
                'C18-9': 'caught on the tree before the F23 repair, by the harness written for F23 (does not apply afterwards)'}
 
@@ -27,7 +29,7 @@ def first_sentence(notes):
 
 
 def main():
-    for rnd, nums in (('round 2', (3, 4)), ('round 3', (5, 6)), ('round 4', (7, 8)), ('round 5', (9, 10)), ('round 6', (11, 11))):
+    for rnd, nums in (('round 2', (3, 4)), ('round 3', (5, 6)), ('round 4', (7, 8)), ('round 5', (9, 10)), ('round 6', (11, 11)), ('round 7', (12, 12))):
         print(f'\n**{rnd}** (variant' + (f's {nums[0]} and {nums[1]}' if nums[0] != nums[1] else f' {nums[0]}') + ' of every property)\n')
         print('| seed | what it changes (author\'s words, shortened) | first evaluation | now: check, exit, first counterexample |')
         print('|---|---|---|---|')
